@@ -496,7 +496,340 @@ def plan_C06(tier, seed):
     }
 
 
+DOC_FIELD = {"MIN": "l", "MAX": "h"}     # generation hint only: comparisons are keyed by the spec's Eff(kind, input)
+HLC_KINDS = ("TR", "ATR", "FAST_STOCH", "SLOW_STOCH", "KC", "CE", "CCI")
+
+
+def plan_C10(tier, seed):
+    q = tier == "quick"
+    rng = random.Random(seed * 86028121 + 10)
+    jobs = []
+    inv = ("Refines", "Safe")
+    for kind in ALL22:
+        for rep in range(2 if q else 6):
+            n = rng.choice([1, 2, 3, 4, 5, 9, 14])
+            a = kcfg(kind, n, alt=rng.randint(0, 4))
+            length = 300 if q else 1500
+            ops = [new_op(i) for i in (1, 2, 3, 4, 5)]
+            lv = (1, 2, 3) if rep % 2 == 0 else (1, 2, 3, 5, 8)
+            for _ in range(length):
+                f = {k: rng.choice(lv) for k in "ohlcv"}            # five independent fields
+                if rng.random() < 0.25:                             # a consistent bar, so that DataItem accepts it
+                    lo, mid, hi = sorted([f["h"], f["l"], f["c"]])
+                    f.update(h=hi, l=lo, c=mid, o=rng.choice([lo, mid, hi]))
+                ops.append(b_op(1, f))
+                g = dict(f)                                          # same documented fields, everything else perturbed
+                g["o"] = rng.choice(lv)
+                if kind not in ("MFI", "OBV"):
+                    g["v"] = rng.choice(lv) + 3
+                if kind not in HLC_KINDS and kind != "MFI":
+                    keep = DOC_FIELD.get(kind, "c")
+                    for k in "hlc":
+                        if k != keep and kind != "OBV":
+                            g[k] = rng.choice(lv)
+                    if kind == "OBV":
+                        g["h"], g["l"] = rng.choice(lv), rng.choice(lv)
+                ops.append(b_op(2, g))
+                if kind not in BAR_ONLY:
+                    if kind in HLC_KINDS:
+                        x = rng.choice(lv)                           # scalar path vs one-price bar
+                        ops.append(s_op(4, x))
+                        ops.append(b_op(5, {"o": x, "h": x, "l": x, "c": x, "v": rng.choice(lv)}))
+                    else:
+                        ops.append(s_op(3, f[DOC_FIELD.get(kind, "c")]))   # Next<f64> on the documented field
+            jobs.append(scripted("%s_r%d_n%d" % (kind, rep, n), {i: a for i in (1, 2, 3, 4, 5)}, ops, noovf=False, invariants=inv))
+    return {
+        "jobs": jobs, "parallel": 12,
+        "min_counts": {"effective_input_compared": 22 * 100},
+        "rule": "per kind, seeded scripted behaviours in which a bar stream with five independently varying fields (not only consistent OHLC) is fed to one "
+                "instance, the same bars with every field the kind is NOT documented to read perturbed to a second, the documented field as a scalar to a third, "
+                "and scalar vs one-price bars to a fourth and fifth; TLC executes TaSystem along the script and supplies Eff(kind, input) -- the numbers the kind is "
+                "documented to read; real instances whose histories of Eff agree must agree within 1e-12 relative; DataItem (when the builder accepts the bar) must "
+                "give bit-identical outputs to the user-defined bar type",
+        "assumptions": COMMON_ASSUME + ["user types are represented by one local struct implementing Open/High/Low/Close/Volume and by DataItem"],
+    }
+
+
+RANGED = ["RSI", "FAST_STOCH", "SLOW_STOCH", "MFI", "ER"]
+
+
+def regime_stream(rng, length, lo=1, hi=30, big=True):
+    """positive prices: trending, oscillating, gapping, nearly flat stretches, spikes followed by small monotone ticks"""
+    out = []
+    x = rng.randint(lo, hi)
+    while len(out) < length:
+        r = rng.randint(0, 6)
+        seg = rng.randint(4, 60)
+        if r == 0:      # long monotone run
+            d = rng.choice([-1, 1])
+            for _ in range(seg):
+                x = min(hi, max(lo, x + d)); out.append(x)
+        elif r == 1:    # one-tick oscillation
+            for k in range(seg):
+                out.append(x + (k % 2) if x < hi else x - (k % 2))
+        elif r == 2:    # gaps
+            for _ in range(seg // 4 + 1):
+                x = rng.choice([lo, hi, (lo + hi) // 2]); out.append(x)
+        elif r == 3:    # nearly flat
+            out += [x] * seg
+        elif r == 4 and big:   # spike, then small monotone ticks (cancellation residue in running sums)
+            out += [BIG, rng.randint(lo, hi), BIG]
+            x = rng.randint(lo, lo + 3)
+            for _ in range(seg):
+                x = min(hi, x + 1); out.append(x)
+        else:
+            out += [rng.randint(lo, hi) for _ in range(seg)]
+    return out[:length]
+
+
+def plan_C07(tier, seed):
+    q = tier == "quick"
+    rng = random.Random(seed * 982451653 + 7)
+    jobs = []
+    inv = ("Refines", "Safe", "InRange")
+    hb = hlc_bars()
+    for n in (1, 2, 3, 4, 5):
+        jobs.append(closed("RSI_n%d" % n, "RSI", n, salpha=P3, maxdepth=(7 if q else 9), invariants=inv))
+        jobs.append(closed("FS_s_n%d" % n, "FAST_STOCH", n, salpha=P3 | ({BIG} if n <= 3 else set()), invariants=inv))
+        jobs.append(closed("FS_b_n%d" % n, "FAST_STOCH", n, balpha=hb, maxdepth=(100 if n <= 3 else 6), invariants=inv))
+        jobs.append(closed("ER_n%d" % n, "ER", n, salpha=P3 | ({BIG} if n <= 3 else set()), invariants=inv))
+        if n <= (2 if q else 3):
+            jobs.append(closed("MFI_n%d" % n, "MFI", n, balpha=OSC_BARS, resets={1}, invariants=inv))
+        for e in ((1, 3) if q else (1, 2, 3, 5)):
+            jobs.append(closed("SS_s_n%d_e%d" % (n, e), "SLOW_STOCH", n, n2=e, salpha=P3, maxdepth=(6 if q else 8), invariants=inv))
+    for kind in RANGED:
+        for rep in range(3 if q else 10):
+            n = rng.choice([1, 2, 3, 5, 8, 14, 30, 100])
+            length = 6000 if q else 40000
+            c = cfg(kind, n, n2=rng.choice([1, 3, 9]))
+            if kind == "MFI" or (kind in ("FAST_STOCH", "SLOW_STOCH") and rep % 2):
+                xs = regime_stream(rng, length, big=False)
+                ops = []
+                for k, x in enumerate(xs):
+                    lo_, hi_ = x - rng.randint(0, 1), x + rng.randint(0, 2)
+                    ops.append(b_op(1, bar(hi_, max(lo_, 0), x, v=rng.choice([0, 1, 1, 2, 50, 1000]))))
+            else:
+                ops = [s_op(1, x) for x in regime_stream(rng, length)]
+            # an instance is reused after reset(): a few resets at seeded positions
+            for _ in range(rng.randint(2, 6)):
+                ops.insert(rng.randrange(len(ops)), {"op": "reset", "i": 1})
+            jobs.append(scripted("%s_reg%d_n%d" % (kind, rep, n), {1: c}, [new_op(1)] + ops, noovf=False, invariants=inv))
+    return {
+        "jobs": jobs, "parallel": 12,
+        "rule": "closed / depth-bounded TaSystem models of RSI, FAST_STOCH, SLOW_STOCH, MFI, ER (spec invariant InRange: the reference is inside the documented "
+                "range whenever defined) replayed per transition, plus seeded regime streams (trending, one-tick oscillation, gaps, nearly flat, 10^6..10^9 spikes "
+                "followed by small monotone ticks, widely varying volume) of 6 000-40 000 steps; at every step at which the specification says the reference "
+                "denominator is non-zero the real output must lie in [0,100] / [0,1] up to 1e-9 (MFI: 100*tau(t)*c when c <= 1000)",
+        "assumptions": COMMON_ASSUME + ["under warped (monotone, non-affine) units only the specification's discrete facts (non-zero denominator, ties) are used"],
+    }
+
+
+def flat_tail(kind, level, L, zero_volume=False):
+    if kind in BAR_ONLY:
+        if zero_volume:   # moving prices without volume
+            return [b_op(1, bar(level + 1 + (k % 3), level, level + (k % 2), v=0)) for k in range(L)]
+        return [b_op(1, bar(level, level, level, v=2)) for _ in range(L)]
+    return [s_op(1, level) for _ in range(L)]
+
+
+def plan_C08(tier, seed):
+    q = tier == "quick"
+    rng = random.Random(seed * 472882027 + 8)
+    jobs = []
+    inv = ("Refines", "Safe")
+    for kind in ALL22:
+        for n in ((1, 2, 3, 4) if q else (1, 2, 3, 4, 5)):
+            if kind in ("TR", "OBV") and n > 1:
+                continue
+            a = kcfg(kind, n, alt=n)
+            sa, ba = free_alpha(kind, with_big=(n <= 2))
+            if kind in BAR_ONLY and n >= 3:
+                ba = ba[:4]
+            L = n + 3
+            conts = [flat_tail(kind, lv, L) for lv in (1, 2, 7)]
+            if kind in ("MFI", "OBV"):
+                conts.append(flat_tail(kind, 2, L, zero_volume=True))
+            conts.append([{"op": "reset", "i": 1}] + flat_tail(kind, 3, L))       # flat from the very start of a reused instance
+            unb = kind in UNBOUNDED
+            depth = (n + 2 if q else n + 3) if unb or (kind in BAR_ONLY and n >= 2) else 10**6
+            jobs.append(Job("%s_n%d" % (kind, n), {1: a}, salpha=sa, balpha=ba, conts=conts, maxdepth=depth + n + 6, noovf=False, invariants=inv,
+                            extra_defs="FreeDepth == FreeDepthOf(%d)" % depth, extra_cfg="CONSTRAINT FreeDepth"))
+        # long flat stretches after seeded activity (long enough for exponential averages to underflow)
+        for rep in range(2 if q else 6):
+            n = [1, 2, 3, 4, 5, 6, 7, 8, 14, 30][(rep * 3 + ALL22.index(kind)) % 10]
+            a = kcfg(kind, n, alt=rep)
+            ops = [new_op(1)]
+            for seg in range(3):
+                act = stream_patterns(rng, rng.randint(0, 3 * n + 10), 1, 9, lively=True)
+                if act and rng.random() < 0.5:
+                    act[rng.randrange(len(act))] = BIG
+                ops += to_ops(kind, 1, act)
+                if seg > 0 and rng.random() < 0.5:
+                    ops.append({"op": "reset", "i": 1})
+                L = (1500 if seg == 2 else rng.randint(1, 3 * n + 5)) if q else (5000 if seg == 2 else rng.randint(1, 200))
+                ops += flat_tail(kind, rng.choice([1, 3, 7, 9]), L, zero_volume=(kind in ("MFI", "OBV") and seg == 1))
+            jobs.append(scripted("%s_flat%d_n%d" % (kind, rep, n), {1: a}, ops, noovf=False, invariants=inv))
+    return {
+        "jobs": jobs, "parallel": 12,
+        "rule": "for each of the 22 kinds and periods 1..4 (1..5 thorough): from EVERY reachable state of the closed model (every cursor position and window content, "
+                "the empty prefix included) a flat stretch of n+3 inputs at three price levels (and a zero-volume stretch at moving prices for MFI/OBV) is explored; "
+                "plus seeded activity followed by flat stretches of 1 500-5 000 bars for periods 1..8, 14, 30; at every step at which the specification marks the "
+                "window degenerate the real output must be finite, in range, and neutral where a neutral value is defined; units include 0.1, 0.3, 1e-4 (running-sum residue)",
+        "assumptions": COMMON_ASSUME + ["'degenerate' is decided by the specification on the lattice (all prices in the window equal / zero money flow in the window)"],
+    }
+
+
+def plan_C09(tier, seed):
+    q = tier == "quick"
+    rng = random.Random(seed * 573259391 + 9)
+    jobs = []
+    inv = ("Refines", "Safe", "NonNeg", "EmaConvex")
+    nonneg = [Fr(0), Fr(1, 2), Fr(2), Fr(1000)]
+    bars = hlc_bars()
+    for kind in ("SMA", "WMA", "SD", "MAD", "MIN", "BB"):
+        for n in (1, 2, 3, 4):
+            jobs.append(closed("%s_n%d" % (kind, n), kind, n, salpha=(A5 | {BIG}) if n <= 3 else A3, m=nonneg[n % 4], invariants=inv,
+                               resets=({1} if n <= 3 else ())))
+    for n in (1, 2, 3, 5):
+        jobs.append(closed("EMA_n%d" % n, "EMA", n, salpha=A5, maxdepth=(6 if q else 8), invariants=inv))
+        jobs.append(closed("ATR_n%d" % n, "ATR", n, balpha=bars, maxdepth=(4 if q else 5), invariants=inv))
+        for j, m in enumerate(nonneg if not q else [nonneg[n % 4], nonneg[(n + 1) % 4]]):
+            jobs.append(closed("KC_n%d_m%d" % (n, j), "KC", n, m=m, balpha=bars, maxdepth=(4 if q else 5), invariants=inv))
+            jobs.append(closed("CE_n%d_m%d" % (n, j), "CE", n, m=m, balpha=bars, maxdepth=(4 if q else 5), invariants=inv))
+        # a reused instance: reset at any point of any short history, then a different continuation
+        jobs.append(closed("CE_r_n%d" % n, "CE", n, m=Fr(0), balpha=bars[:4] + [bar(9, 7, 8), bar(7, 6, 6)], resets={1}, maxdepth=(6 if q else 7), invariants=inv))
+    jobs.append(closed("TR_b", "TR", 1, balpha=bars, maxdepth=4, invariants=inv))
+    for t3 in [(1, 2, 3), (3, 1, 2), (2, 2, 1), (5, 3, 2)]:
+        jobs.append(closed("MACD_%d_%d_%d" % t3, "MACD", t3[0], n2=t3[1], n3=t3[2], salpha=A5, maxdepth=(5 if q else 6), invariants=inv))
+        jobs.append(closed("PPO_%d_%d_%d" % t3, "PPO", t3[0], n2=t3[1], n3=t3[2], salpha=P3, maxdepth=(5 if q else 6), invariants=inv))
+    # cancellation-engineered streams: spikes / large values, then flat or nearly flat stretches
+    for kind in ("SMA", "WMA", "SD", "MAD", "MIN", "BB", "EMA", "ATR", "KC", "CE", "MACD", "PPO", "TR"):
+        for rep in range(2 if q else 6):
+            n = rng.choice([1, 2, 3, 5, 9, 20, 50])
+            a = cfg(kind, n, n2=rng.choice([1, 5, 26]), n3=rng.choice([1, 9]), m=rng.choice(nonneg))
+            ops = [new_op(1)]
+            total = 4000 if q else 20000
+            xs = []
+            while len(xs) < total:
+                xs += [BIG if n <= 30 else 12] * rng.randint(1, 3) + regime_stream(rng, rng.randint(5, 300), 1, 12, big=False)
+                xs += [rng.randint(1, 12)] * rng.randint(n, 3 * n + 3)
+            ops += to_ops(kind, 1, xs[:total], style=(1 if kind in ("ATR", "KC", "TR") and rep % 2 else 0))
+            for _ in range(rng.randint(1, 5)):
+                ops.insert(rng.randrange(1, len(ops)), {"op": "reset", "i": 1})
+            jobs.append(scripted("%s_canc%d_n%d" % (kind, rep, n), {1: a}, ops, noovf=False, invariants=inv))
+    return {
+        "jobs": jobs, "parallel": 12,
+        "rule": "spec invariants NonNeg / EmaConvex (variance, MAD, ATR >= 0; histogram = line - signal; lower <= average <= upper for multiplier >= 0; an EMA is "
+                "a convex combination of its history) model-checked on closed / depth-bounded models; every transition and seeded cancellation-engineered streams "
+                "(10^6..10^17 spikes followed by flat and nearly flat stretches, offsets up to 1e9..1e12, multipliers 0, 1/2, 2, 1000) replayed: the inequalities are "
+                "evaluated on the real outputs, with the window/history minimum and maximum supplied by the specification",
+        "assumptions": COMMON_ASSUME,
+    }
+
+
+FAULT_TOKS = {"NaN", "PInf", "NInf", "FMax", "NFMax", "Sub", "NZero"}
+BAD_BARS = [bar(1, 3, 2), bar(3, 1, 5), bar(2, 2, 0, v=0), bar(1, 2, 3, o=9, v=3)]     # low > high, close outside, ...
+
+
+def plan_C12(tier, seed):
+    q = tier == "quick"
+    rng = random.Random(seed * 633910099 + 12)
+    jobs = []
+    inv = ("Safe",)
+    for kind in ALL22:
+        for n in ((1, 2) if q else (1, 2, 3)):
+            if kind in ("TR", "OBV") and n > 1:
+                continue
+            a = kcfg(kind, n, alt=n + 2)
+            sa = set() if kind in BAR_ONLY else {2}
+            ba = BAD_BARS[:2] + [bar(3, 1, 2)] if kind in BAR_ONLY or kind in HLC_KINDS else []
+            jobs.append(Job("%s_f_n%d" % (kind, n), {1: a}, salpha=sa, balpha=ba, toks=FAULT_TOKS, resets={1}, maxdepth=(5 if q else 6),
+                            noovf=False, invariants=inv, view=False, emit="EmitLeaf"))
+        # every period 1..64 for 3*period+3 calls with a fault injected at a different cursor position each time
+        ids = {}
+        ops = []
+        periods = list(range(1, 65)) + ([] if q else [rng.randint(65, 4096) for _ in range(6)] + [4096])
+        if kind in ("TR", "OBV"):
+            periods = [1]
+        for k, n in enumerate(periods):
+            i = k + 1
+            ids[i] = kcfg(kind, n, alt=k)
+            ops.append(new_op(i))
+            calls = 3 * n + 3
+            fault_at = {rng.randrange(calls) for _ in range(3)} | {(k * 7) % calls}
+            xs = stream_patterns(rng, calls, 1, 9, lively=True)
+            for j, x in enumerate(xs):
+                if j in fault_at:
+                    ops.append({"op": "tok", "i": i, "x": rng.choice(sorted(FAULT_TOKS))})
+                elif kind in BAR_ONLY or (kind in HLC_KINDS and j % 3 == 0):
+                    ops.append(b_op(i, rng.choice(BAD_BARS) if rng.random() < 0.3 else rand_bar(rng)))
+                else:
+                    ops.append(s_op(i, x))
+            ops.append({"op": "reset", "i": i})
+            ops += to_ops(kind, i, xs[:3])
+            ops.append({"op": "drop", "i": i})
+        jobs.append(scripted("%s_periods" % kind, ids, ops, noovf=False, invariants=inv))
+    return {
+        "jobs": jobs, "parallel": 12,
+        "rule": "(a) per kind and period 1..2 (1..3): EVERY sequence up to depth 4 (5) over {ordinary value, NaN, +inf, -inf, +-f64::MAX, subnormal, -0.0, reset, "
+                "bars with low > high / close outside} ; (b) per kind every period 1..64 (plus sampled ones up to 4096) run for 3*period+3 calls with faults injected at "
+                "varying cursor positions, then reset and reuse; spec invariant Safe (every ring index in range, counters within bounds) holds on all of them; in the "
+                "real crate (built with overflow checks and debug assertions) next, reset, clone, Display, Debug, bincode and serde_json must return after every op",
+        "assumptions": ["memory safety itself is not observed beyond the absence of panics (safe Rust, bounds-checked)", "TLC and serde_json are trusted"],
+    }
+
+
+def plan_C17(tier, seed):
+    q = tier == "quick"
+    rng = random.Random(seed * 715225739 + 17)
+    jobs = []
+    inv = ("Refines", "Safe")
+    FORGET = ["SMA", "WMA", "SD", "MAD", "MIN", "MAX", "FAST_STOCH", "BB", "CCI", "ROC", "ER", "MFI"]
+    for kind in FORGET:
+        for n in ((1, 2, 3) if q else (1, 2, 3, 4)):
+            a = kcfg(kind, n, alt=n)
+            sa, ba = free_alpha(kind, with_big=True)
+            if kind in BAR_ONLY:
+                ba = ba[:4] + [bar(BIG, 1, 2, v=1)]
+            extra = (2 if q else 3) if kind not in BAR_ONLY else (1 if q else 2)
+            depth = Memory_of(kind, n) + 1 + extra
+            jobs.append(Job("%s_n%d" % (kind, n), {1: a}, salpha=sa, balpha=ba, maxdepth=depth + 1, noovf=False, invariants=inv, view=False))
+        for rep in range(2 if q else 6):
+            n = rng.choice([1, 2, 3, 5, 9, 14, 30, 64])
+            a = kcfg(kind, n, alt=rep)
+            total = 1500 if q else 8000
+            xs = []
+            while len(xs) < total:
+                xs += regime_stream(rng, rng.randint(n + 2, 4 * n + 40), 1, 15, big=(n <= 30))
+            if kind in BAR_ONLY:     # valid bars with repeated typical prices, zero-volume moves and an occasional spike
+                bs = rand_bars(rng, total)
+                for k in range(0, total, rng.randint(40, 200)):
+                    bs[k] = bar(BIG, 1, 2, v=1) if n <= 30 else bs[k]
+                ops = [b_op(1, b) for b in bs]
+            else:
+                ops = to_ops(kind, 1, xs[:total])
+            jobs.append(scripted("%s_hist%d_n%d" % (kind, rep, n), {1: a}, [new_op(1)] + ops, noovf=False, invariants=inv))
+    return {
+        "jobs": jobs, "parallel": 12,
+        "rule": "for the 12 windowed kinds: every input sequence (no state merging) of length Memory+1 .. Memory+n+3 over {1,2,3, 10^6 spike} for periods 1..3 (1..4), and "
+                "seeded long histories with spikes; the specification's reference state IS the window of the last Memory(kind,p) inputs (n, or n+1 for ROC/ER/MFI), and the "
+                "transcribed algorithm is checked to refine it; for every behaviour the real instance fed the whole history is compared with a fresh real instance fed only "
+                "the last Memory inputs: exactly for MIN/MAX/FAST_STOCH, within tau(t)*M (times the condition number) otherwise",
+        "assumptions": COMMON_ASSUME,
+    }
+
+
+def Memory_of(kind, n):
+    return n + 1 if kind in ("ROC", "ER", "MFI") else n
+
+
 PLANS = {
+    "C07": plan_C07,
+    "C08": plan_C08,
+    "C09": plan_C09,
+    "C12": plan_C12,
+    "C17": plan_C17,
+    "C10": plan_C10,
     "C04": plan_C04,
     "C05": plan_C05,
     "C06": plan_C06,
